@@ -513,6 +513,23 @@ def run_case(case: dict, ctx: dict) -> dict:
                     bump("probes", "user_template_unreadable:%s" % got_o)
                     if got_o == "builtin":
                         violation("unreadable-user-template-silently-replaced-by-builtin", {"template": victim, "lang": lang})
+                    # ... and the same for a read the kernel refuses (EACCES / EIO on a file that is there)
+                    with open(vpath, "wb") as f:
+                        f.write(b"USER " + victim.encode() + b"\n")
+                    seams.read_faults = {os.path.join(os.path.basename(dirs[0]), victim + ".j2"): "EACCES" if plan["unreadable_user_template"] % 2 else "EIO"}
+                    try:
+                        loader3 = DSDLTemplateLoader(templates_dirs=[pathlib.Path(d) for d in dirs], package_name_for_templates="nunavut.lang.%s" % lang, search_policy=policy)
+                        try:
+                            _, filename, _ = loader3.get_source(env0, victim + ".j2")
+                            got_o = "user" if filename.startswith(dirs[0] + os.sep) else "builtin"
+                        except Exception:  # pylint: disable=broad-except
+                            got_o = "raised"
+                    finally:
+                        seams.read_faults = {}
+                    evaluations += 1
+                    bump("probes", "user_template_read_refused:%s" % got_o)
+                    if got_o == "builtin":
+                        violation("unreadable-user-template-silently-replaced-by-builtin", {"template": victim, "lang": lang, "fault": "read refused"})
                 finally:
                     if saved is None:
                         os.remove(vpath)
